@@ -91,6 +91,16 @@ NoneMissingOf(c, rep) ==
     IN \A tau \in lo..(hi-1) :
           (CellAt(c, tau) \in oc /\ CellAt(c, tau - 1) \notin oc) => tau \in starts
 
+(* the reported openings span at least the np pulse periods they are documented to cover  *)
+(* ("each slit shows up multiple times in the result such that the array covers an entire  *)
+(* pulse length"; "number of pulses to rotate the chopper for"): one pulse period is       *)
+(* K * num / den ticks.                                                                     *)
+CoversPulsesOf(c, rep, np) ==
+    Len(rep) = 0 \/
+    LET lo == MinOf({ rep[j][1] : j \in 1..Len(rep) })
+        hi == MaxOf({ rep[j][2] : j \in 1..Len(rep) })
+    IN (hi - lo) * c.den >= np * c.K * c.num
+
 (* duration = width of the slit that is under the beam, divided by |omega| = 1             *)
 SlitUnder(c, tau) == CHOOSE i \in 1..Len(c.slits) : CellAt(c, tau) \in Cells(c.slits[i], c.K)
 DurationIsWidthOf(c, rep, dur) ==
@@ -126,7 +136,8 @@ ReportedTurns(c, first, last, bug) ==
 
 NRep(c) == IF c.den = 1 THEN c.num ELSE 1
 ReportedDirect(c, bug) ==
-    IF bug = "gap" THEN ReportedTurns(c, -1, -1, bug) \o ReportedTurns(c, 1, NRep(c) - 1, bug)
+    IF bug = "truncate" /\ NRep(c) >= 2 THEN ReportedTurns(c, -1, NRep(c) - 2, bug)   \* one rotation too few
+    ELSE IF bug = "gap" THEN ReportedTurns(c, -1, -1, bug) \o ReportedTurns(c, 1, NRep(c) - 1, bug)
     ELSE ReportedTurns(c, -1, NRep(c) - 1, bug)
 
 (* Expansion over np source pulses ("number of pulses to rotate the chopper for"): the     *)
